@@ -84,7 +84,7 @@ def r_graddrop(c):
         for i in range(m):
             kept = (P > U[j] and col[i] > 0) or (P < U[j] and col[i] < 0)
             ref[j] += col[i] if kept else lk[i] * col[i]
-    with patched(torch, "rand", lambda *a, **k: t64(U)):
+    with patched(torch, "rand", FixedStream(U)):
         out = GradDrop(leak=None if leak is None else t64(leak))(t64(J)).numpy()
     return dict(reproduced=not close(out, ref), out=out.tolist(), reference=ref.tolist())
 
